@@ -97,11 +97,14 @@ def run(ctx):
     if okw:
         r2.ok(f"{main.module.relpath}::main", "creates only .gwf/, .gwf/logs/ and (after a confirmed prompt, when no workflow exists) the project skeleton", main.where)
     # mkdir targets in main are the state directories
-    for c in _calls(main.node):
-        if isinstance(c.func, ast.Attribute) and c.func.attr == "mkdir":
-            t = ast.unparse(c.func.value)
-            r2.check(".gwf" in t and "working_dir" in t, f"{main.module.relpath}::main::mkdir:{t[:40]}", "state directory under the project",
-                     f"the group callback creates `{t}`, which is not the project's state directory", loc(c, main.module))
+    def structural(_ctx, rr):
+        for c in _calls(main.node):
+            if isinstance(c.func, ast.Attribute) and c.func.attr == "mkdir":
+                t = ast.unparse(c.func.value)
+                rr.check(".gwf" in t and "working_dir" in t, f"{main.module.relpath}::main::mkdir:{t[:40]}", "state directory under the project",
+                         f"the group callback creates `{t}`, which is not the project's state directory", loc(c, main.module))
+    from .evalhelpers import cli_main_location_witness
+    ctx.structural_or_witness(r2, structural, lambda: cli_main_location_witness(ctx), f"{main.module.relpath}::main::mkdir", both=True)
 
     r3 = ctx.rule("R3", "status, dry-run and run share one decision procedure; what is shown shouldrun/failed/cancelled is what is submitted", min_instances=5)
     from ..inline import inlined
